@@ -100,6 +100,43 @@ Theorem C08_rval_is_resolve_refs_partial : forall o, forall n we w a, typedn n w
 Proof. exact rval_resolveS. Qed.
 Print Assumptions C08_rval_is_resolve_refs_partial.
 
+(** ... independent of the height of the value: [agreen] is monotone in its depth (checking deeper implies checking less
+    deep), and [agree_all] -- a finite set of (writer schema, reader schema) pairs that contains the pair in question,
+    every pair of which satisfies the conditions of [agreen] locally and hands only pairs of the set to the next level
+    ([closedb]; the set is computed by [reach], a work list over the two schema graphs) -- implies [agreen k] for every k *)
+Theorem C08_zone_depth_monotone : forall k k' we re w r, (k <= k')%nat ->
+  agreen k' we re w r = true -> agreen k we re w r = true.
+Proof. exact agreen_le. Qed.
+Print Assumptions C08_zone_depth_monotone.
+
+Theorem C08_zone_closed_set : forall we re S, closedb we re S = true ->
+  forall k w r, memp (w, r) S = true -> agreen k we re w r = true.
+Proof. exact closed_agreen. Qed.
+Print Assumptions C08_zone_closed_set.
+
+Theorem C08_factor_zone_refs_any_height_partial : forall o, forall n we w a, typedn n we w a ->
+  forall re r f x, (n <= f)%nat ->
+  env_scoped we = true -> env_scoped re = true -> scoped we w = true -> scoped re r = true ->
+  agree_all we re w r = true ->
+  rdec f we re o w (Some r) (wire a ++ x)%list = lift x (resolve o we re w r a).
+Proof. exact rdec_resolve_zoneS_all. Qed.
+Print Assumptions C08_factor_zone_refs_any_height_partial.
+
+Theorem C08_rval_is_resolve_refs_any_height_partial : forall o, forall n we w a, typedn n we w a -> forall re r f, (n <= f)%nat ->
+  env_scoped we = true -> env_scoped re = true -> scoped we w = true -> scoped re r = true ->
+  agree_all we re w r = true ->
+  rval f we re o w (Some r) a = resolve o we re w r a.
+Proof. exact rval_resolveS_all. Qed.
+Print Assumptions C08_rval_is_resolve_refs_any_height_partial.
+
+(** the two exclusions of [scoped] about unions are no restriction on Avro schemas: a reference can only name a record,
+    an enum or a fixed type, so no union is ever reached through a reference; and a union that immediately contains a
+    union is not an Avro schema (specification, Unions: "Unions may not immediately contain other unions") *)
+Theorem C08_no_union_behind_reference : forall e b, env_scoped e = true -> scoped e b = true ->
+  is_union b = false -> is_union (deref1 e b) = false.
+Proof. exact nonunion_deref1. Qed.
+Print Assumptions C08_no_union_behind_reference.
+
 (** the code's verdict and its choice of a reader-union branch are the specification's, references included *)
 Theorem C08_match_is_spec_refs : forall we re w r, env_scoped we = true -> env_scoped re = true ->
   scoped we w = true -> scoped re r = true -> is_union (deref1 we w) = false -> is_union (deref1 re r) = false ->
@@ -138,6 +175,27 @@ Theorem C08_identity_code_partial : forall o, forall n e s a, typedn n e s a -> 
   exists v, py_of o e s a = Some v /\ rdec f e e o s (Some s) (wire a ++ x)%list = ROk (v, x).
 Proof. exact rdec_identity_zone. Qed.
 Print Assumptions C08_identity_code_partial.
+
+(** ... with by-name references (recursive types included): to the depth of the value, and -- [wf_local] / [wf_env]: the
+    conditions of [wf_ident] on the schema and on every definition of the table, not followed through references --
+    for values of any height *)
+Theorem C08_identity_code_refs_partial : forall o, forall n e s a, typedn n e s a -> wf_ident n e s ->
+  env_scoped e = true -> scoped e s = true ->
+  forall k f x, (n <= k)%nat -> (n <= f)%nat -> agreen k e e s s = true ->
+  exists v, py_of o e s a = Some v /\ rdec f e e o s (Some s) (wire a ++ x)%list = ROk (v, x).
+Proof. exact rdec_identity_zoneS. Qed.
+Print Assumptions C08_identity_code_refs_partial.
+
+Theorem C08_wf_local_is_wf_ident : forall e, wf_env e -> forall n s, wf_local e s -> wf_ident n e s.
+Proof. exact wf_local_ident. Qed.
+Print Assumptions C08_wf_local_is_wf_ident.
+
+Theorem C08_identity_code_refs_any_height_partial : forall o, forall n e s a, typedn n e s a -> wf_env e -> wf_local e s ->
+  env_scoped e = true -> scoped e s = true -> agree_all e e s s = true ->
+  forall f x, (n <= f)%nat ->
+  exists v, py_of o e s a = Some v /\ rdec f e e o s (Some s) (wire a ++ x)%list = ROk (v, x).
+Proof. exact rdec_identity_zoneS_all. Qed.
+Print Assumptions C08_identity_code_refs_any_height_partial.
 
 (** ** C08_error_*: when no rule applies the specification's result is the resolution error *)
 Theorem C08_error_no_default : forall o, forall we re w r l wn wal wfs rn ral rfs record tbl1 n fd tbl2,
@@ -317,3 +375,27 @@ Example C08_ref_witnesses_in_zone :
   (env_scoped f7_we && env_scoped f7_re && scoped f7_we f7_w && scoped f7_re f7_r && agreen 6 f7_we f7_re f7_w f7_r = true) /\
   (env_scoped g1_we && env_scoped g1_re && scoped g1_we g1_w && scoped g1_re g1_r && agreen 6 g1_we g1_re g1_w g1_r = true).
 Proof. exact ref_witnesses_in_zone. Qed.
+
+(** a recursive type (a linked list; the reader promotes the payload, reorders the fields and adds one with a default):
+    inside the zone with references at every depth, so a list of ANY length is read as the specification says -- also
+    with reader == writer; a list of three nodes by computation *)
+Example C08_linked_list_in_zone :
+  env_scoped ll_we && env_scoped ll_re && scoped ll_we ll_w && scoped ll_re ll_r && agree_all ll_we ll_re ll_w ll_r = true /\
+  env_scoped ll_we && scoped ll_we ll_w && agree_all ll_we ll_we ll_w ll_w = true.
+Proof. exact ll_in_zone. Qed.
+
+Example C08_linked_list_any_length : forall o n a, typedn n ll_we ll_w a -> forall f x, (n <= f)%nat ->
+  rdec f ll_we ll_re o ll_w (Some ll_r) (wire a ++ x)%list = lift x (resolve o ll_we ll_re ll_w ll_r a).
+Proof. exact ll_any_length. Qed.
+
+Example C08_linked_list_identity : forall o n a, typedn n ll_we ll_w a -> forall f x, (n <= f)%nat ->
+  exists v, py_of o ll_we ll_w a = Some v /\ rdec f ll_we ll_we o ll_w (Some ll_w) (wire a ++ x)%list = ROk (v, x).
+Proof.
+  intros o n a Ht f x Hf. destruct ll_wf as [He Hl]. destruct ll_in_zone as [_ H].
+  repeat (apply andb_prop in H as [H ?]).
+  apply (rdec_identity_zoneS_all o n ll_we ll_w a Ht He Hl); assumption.
+Qed.
+
+Example C08_linked_list_three :
+  rdec 12 ll_we ll_re ropts0 ll_w (Some ll_r) (wire ll_a) = ROk (ll_node 1 (ll_node 2 (ll_node 3 PNone)), []).
+Proof. exact ll_three. Qed.
